@@ -20,7 +20,7 @@ VERIF = os.path.dirname(os.path.dirname(os.path.abspath(__file__)))
 
 ROOTS = {
     "Query": ["users", "user", "nestedType", "recursiveType", "typeFilterWithArguments", "typeWithMultipleFilterFields",
-              "complexFilterType", "calculateTotals", "categories", "category", "categoriesByKind",
+              "complexFilterType", "calculateTotals", "categories", "category", "categoriesByKind", "categoriesByKinds",
               "filterCategories", "randomPet", "allPets", "search", "randomSearchResult", "nullableFieldsType",
               "nullableFieldsTypeById", "allNullableFieldsTypes", "blogPost", "blogPostById", "allBlogPosts", "author",
               "authorById", "allAuthors", "testContainer", "testContainers", "_entities"],
@@ -88,8 +88,6 @@ ARG_POOLS = {
 
 # never selected, with the reason
 EXCLUDE = {
-    # known finding C20 panic:load (a repeated enum argument panics in RPCCompiler.processRepeatedField); kept as a probe in c20.py
-    ("Query", "categoriesByKinds"): "known finding: Load panics on a [Enum!]! argument",
     ("Subcategory", "featuredCategory"): "MockService does not implement ResolveSubcategoryFeaturedCategory",
     # @requires fields whose external inputs are abstract types (representations would need typed sub-objects)
     ("Storage", "itemInfo"): "requires abstract external input", ("Storage", "operationReport"): "requires abstract external input",
